@@ -1424,6 +1424,10 @@ class Harden(EnvironmentFilter):
         actions_materialized = not first_has_actions or primitives.is_materialized(first['actions'][0])
         action_materialized  = not first_has_action  or primitives.is_materialized(first['action'])
 
+        #a lazy dense value equals both a list and a tuple of its values, the list it is hardened into only equals a list
+        dense_actions_change = not actions_materialized and is_dense_actions
+        dense_action_changes = not action_materialized  and is_dense_action
+
         for interaction in interactions:
 
             new = interaction.copy()
@@ -1442,6 +1446,15 @@ class Harden(EnvironmentFilter):
                 new['action'] = list(new['action'])
             elif not action_materialized and is_sparse_action:
                 new['action'] = new['action'].copy()
+
+            if dense_actions_change:
+                for target in ['rewards','feedbacks']:
+                    if callable(new.get(target)):
+                        new[target] = DiscreteReward(new['actions'],list(map(new[target],interaction['actions'])))
+
+            if (dense_actions_change or dense_action_changes) and first_has_actions and first_has_action:
+                if interaction['action'] in interaction['actions']:
+                    new['action'] = new['actions'][interaction['actions'].index(interaction['action'])]
 
             yield new
 
